@@ -38,7 +38,8 @@ type ConcConfig struct {
 	CacheSize  int    `json:"cache_size"`
 	Shared     int    `json:"shared_bugs"`
 	Private    bool   `json:"private_bugs"`
-	Unloaded   bool   `json:"unloaded"` // close and reopen the cache before the workers start
+	Unloaded   bool   `json:"unloaded"`             // close and reopen the cache before the workers start
+	CommitAll  bool   `json:"commit_all,omitempty"` // every edit is committed by its own call (nothing left for the final commit pass, which rewrites the cache file)
 	Seed       int64  `json:"seed"`
 	Mix        string `json:"mix"` // edits | mixed | readheavy
 	Yield      int    `json:"hook_yield_permille"`
@@ -251,7 +252,7 @@ func concChild(args []string) int {
 						continue
 					}
 					// commit (sometimes left to a later call)
-					if rng.Intn(5) > 0 {
+					if rng.Intn(5) > 0 || cfg.CommitAll {
 						cev := ConcEvent{W: w, Op: "commit", Bug: id.String(), Call: now()}
 						var cerr error
 						if rng.Intn(2) == 0 {
@@ -395,6 +396,40 @@ func concChild(args []string) int {
 				record(ConcEvent{W: -1, Op: "quiescent-check", Bug: id.String(), Ok: true})
 			}
 		}
+	}
+	// last burst on DIFFERENT bugs (edits of one bug are serialised by the bug's own lock): every worker edits and
+	// commits its private bug at the same instant, then everybody stops. The notifications overlap, each rewrites the
+	// cache file; the file left behind is what the next process loads, compared with a rebuild by the parent.
+	if cfg.CommitAll && cfg.Private && cfg.CacheSize >= 100 {
+		var bw sync.WaitGroup
+		gate := make(chan struct{})
+		for w := 0; w < cfg.Workers; w++ {
+			bw.Add(1)
+			go func(w int) {
+				defer bw.Done()
+				<-gate
+				for k := 0; k < 2; k++ {
+					m := newMarker(w)
+					ev := ConcEvent{W: w, Op: "comment", Bug: private[w].String(), Marker: m, Call: now()}
+					b, err := c.Bugs().Resolve(private[w])
+					if err == nil {
+						_, _, err = b.AddComment("comment " + m)
+					}
+					ev.Ret = now()
+					ev.Ok = err == nil
+					if err != nil {
+						ev.Err = errClass(err)
+						record(ev)
+						return
+					}
+					cerr := b.CommitAsNeeded()
+					ev.Acked = cerr == nil
+					record(ev)
+				}
+			}(w)
+		}
+		close(gate)
+		bw.Wait()
 	}
 	// commit whatever was left staged, then a final read through the cache
 	for _, id := range c.Bugs().AllIds() {
@@ -896,6 +931,13 @@ func c18Configs(r *mon.Run) []ConcConfig {
 	}
 	// the situation of the design-time probe: many workers, one unloaded shared bug
 	out = append(out, ConcConfig{Name: "probe-unloaded-shared", Workers: 8, GoMaxProcs: 8, Calls: 12, CacheSize: 1000, Shared: 1, Unloaded: true, Seed: r.Seed, Mix: "edits", Delays: "cache.resolve.miss=5ms"})
+	// (edits of one bug are serialised by the bug's own lock: the writers that overlap are those of different bugs; no
+	// burst phase, which would rewrite the file afterwards)
+	// writers of the cache file leaving the point between encoding and writing in another order than they reached it:
+	// the file left behind (what the next process loads) must still describe the last state
+	for k := 0; k < r.Pick(8, 30); k++ {
+		out = append(out, ConcConfig{Name: fmt.Sprintf("probe-cache-file-write-order-%d", k), Workers: 4 + 2*(k%2), GoMaxProcs: 4, Calls: 6 + k%5, CacheSize: 1000, Shared: 2 + k%2, Private: true, Seed: r.Seed + int64(k), Mix: "edits", CommitAll: true, Delays: "cache.write.encoded=40ms/2"})
+	}
 	return out
 }
 
